@@ -655,3 +655,220 @@ Proof.
 Qed.
 
 End Prepare.
+
+(** * Part C *)
+
+Lemma state_of_nat_of_state : forall s, state_of_nat (length s) (nat_of_state s) = s.
+Proof.
+  induction s as [|b s IH]; [reflexivity|].
+  cbn [length state_of_nat nat_of_state].
+  assert (Hodd : Nat.odd ((if b then 1 else 0) + 2 * nat_of_state s) = b).
+  { rewrite Nat.odd_add_mul_2. destruct b; reflexivity. }
+  assert (Hdiv : Nat.div2 ((if b then 1 else 0) + 2 * nat_of_state s) = nat_of_state s).
+  { destruct b; [apply (Nat.div2_succ_double (nat_of_state s)) | apply (Nat.div2_double (nat_of_state s))]. }
+  rewrite Hodd, Hdiv, IH. reflexivity.
+Qed.
+
+(** <b| m |a> = sg   <->   <a| m^+ |b> = sg   on labels *)
+Lemma mono_entry_adjoint_fwd : forall M m a b sg, a < Nat.pow 2 M ->
+  mono_entry M m a = Some (sg, b) -> mono_entry M (mono_adjoint m) b = Some (sg, a).
+Proof.
+  intros M m a b sg Ha H. unfold mono_entry in *.
+  destruct (act_mono m (state_of_nat M a)) as [[[sg' s']|]| | | |] eqn:E; try discriminate.
+  inversion H; subst sg' b; clear H.
+  assert (Hlen : length s' = M) by (rewrite (act_mono_length _ _ _ _ E); apply state_of_nat_length).
+  rewrite <- Hlen at 1. rewrite state_of_nat_of_state.
+  rewrite (proj1 (act_mono_adjoint m _ sg s') E).
+  rewrite nat_of_state_of_nat by exact Ha. reflexivity.
+Qed.
+
+Lemma mono_entry_range : forall M m a sg b, mono_entry M m a = Some (sg, b) -> b < Nat.pow 2 M.
+Proof.
+  intros M m a sg b H. unfold mono_entry in H.
+  destruct (act_mono m (state_of_nat M a)) as [[[sg' s']|]| | | |] eqn:E; try discriminate.
+  inversion H; subst. pose proof (nat_of_state_lt s') as Hlt.
+  rewrite (act_mono_length _ _ _ _ E), state_of_nat_length in Hlt. exact Hlt.
+Qed.
+
+Section Adjoint.
+Variable K : Type.
+Variable NO : numops K.
+Notation "0" := (n0 K NO).
+Notation "1" := (n1 K NO).
+Notation kadd := (nadd K NO).
+Hypothesis add0l : forall x, kadd 0 x = x.
+
+(** the Jordan-Wigner matrix of m^+ is the transpose of that of m (the entries are 0, 1, -1: real), for every
+    monomial m; in particular  c_i = (c^+_i)^T  and  c^+_j c_i = (c^+_i c_j)^T *)
+Theorem jw_matrix_adjoint : forall M (m : monomial) s t, s < Nat.pow 2 M -> t < Nat.pow 2 M ->
+  mget K NO (poly_matrix K NO M [(mono_adjoint m, 1)]) s t = mget K NO (poly_matrix K NO M [(m, 1)]) t s.
+Proof.
+  intros M m s t Hs Ht.
+  unfold mget, poly_matrix.
+  rewrite (nth_map_seq _ (Nat.pow 2 M) s []) by exact Hs. rewrite (nth_map_seq _ (Nat.pow 2 M) t 0) by exact Ht.
+  rewrite (nth_map_seq _ (Nat.pow 2 M) t []) by exact Ht. rewrite (nth_map_seq _ (Nat.pow 2 M) s 0) by exact Hs.
+  unfold ksum. cbn [fold_left fst snd]. f_equal.
+  destruct (mono_entry M (mono_adjoint m) t) as [[sg b]|] eqn:E1.
+  - destruct (Nat.eqb b s) eqn:Eb.
+    + apply Nat.eqb_eq in Eb. subst b. apply mono_entry_adjoint_fwd in E1; [|exact Ht].
+      rewrite mono_adjoint_involutive in E1. rewrite E1, Nat.eqb_refl. reflexivity.
+    + destruct (mono_entry M m s) as [[sg2 b2]|] eqn:E2; [|reflexivity].
+      destruct (Nat.eqb b2 t) eqn:Eb2; [|reflexivity].
+      apply Nat.eqb_eq in Eb2. subst b2. apply mono_entry_adjoint_fwd in E2; [|exact Hs].
+      rewrite E2 in E1. inversion E1; subst. rewrite Nat.eqb_refl in Eb. discriminate.
+  - destruct (mono_entry M m s) as [[sg2 b2]|] eqn:E2; [|reflexivity].
+    destruct (Nat.eqb b2 t) eqn:Eb2; [|reflexivity].
+    apply Nat.eqb_eq in Eb2. subst b2. apply mono_entry_adjoint_fwd in E2; [|exact Hs].
+    rewrite E2 in E1. discriminate.
+Qed.
+
+Corollary jw_annihilation_is_transposed_creation : forall M i s t, s < Nat.pow 2 M -> t < Nat.pow 2 M ->
+  mget K NO (op_matrix K NO M (cann i)) s t = mget K NO (op_matrix K NO M (cdag i)) t s.
+Proof. intros M i s t Hs Ht. apply (jw_matrix_adjoint M [cdag i] s t Hs Ht). Qed.
+
+(** pruning: a cell of the stored matrix is either the computed value, or 0 -- and then the computed value
+    was not larger than |reference| * precision <= |reference| = MatrixElementTolerance *)
+Notation ltb := (nre_ltb K NO).
+Notation kabs := (nabs K NO).
+Notation kmul := (nmul K NO).
+Hypothesis le_trans : forall a b c, ltb b a = false -> ltb c b = false -> ltb c a = false.
+
+Theorem pruning_bound : forall (reference prec : K) (m : mat K) i j,
+  ltb (kabs reference) (kmul (kabs reference) prec) = false ->       (* |ref| * prec <= |ref|, i.e. prec <= 1 *)
+  mget K NO (prune K NO reference prec m) i j = mget K NO m i j \/
+  (mget K NO (prune K NO reference prec m) i j = 0 /\
+   ltb (kmul (kabs reference) prec) (kabs (mget K NO m i j)) = false /\
+   ltb (kabs reference) (kabs (mget K NO m i j)) = false).
+Proof.
+  intros reference prec m i j Hprec.
+  set (f := fun x : K => if keep_entry K NO reference prec x then x else 0).
+  assert (E : mget K NO (prune K NO reference prec m) i j = f (mget K NO m i j)).
+  { unfold mget, prune. fold f.
+    change (@nil K) with (map f []) at 1. rewrite map_nth.
+    assert (H0 : f 0 = 0) by (unfold f; destruct (keep_entry K NO reference prec 0); reflexivity).
+    rewrite <- H0 at 1. rewrite map_nth. reflexivity. }
+  rewrite E. unfold f. destruct (keep_entry K NO reference prec (mget K NO m i j)) eqn:Ek; [left; reflexivity|].
+  right. split; [reflexivity|]. unfold keep_entry in Ek. split; [exact Ek|].
+  apply (le_trans _ (kmul (kabs reference) prec) _); [exact Ek | exact Hprec].
+Qed.
+
+(** FieldOperatorContainer::computeAll for one block pair: the annihilation part is the adjoint of the creation part *)
+Theorem container_copy_is_adjoint : forall (ncols : nat -> nat) (l r : nat) (m : mat K),
+  container_copy K NO ncols [(l, r)] [((l, r), m)] [(r, l)] = Done [((r, l), Some (adjoint K NO (ncols r) m))].
+Proof.
+  intros ncols l r m. unfold container_copy, assoc_right. cbn [fold_left map bind find fst snd].
+  rewrite !Nat.eqb_refl. reflexivity.
+Qed.
+
+(** a missing annihilation part is an out-of-bounds access (find() == end() dereferenced) *)
+Theorem container_copy_missing_part : forall (ncols : nat -> nat) (l r : nat) (m : mat K),
+  container_copy K NO ncols [(l, r)] [((l, r), m)] [] = OOB.
+Proof.
+  intros ncols l r m. unfold container_copy, assoc_right. cbn [fold_left map bind find fst snd].
+  rewrite Nat.eqb_refl. reflexivity.
+Qed.
+
+(** HamiltonianPart::compute on a 1x1 block: eigenvalue = the (real part of the) single entry, eigenvector = 1,
+    whatever a solver would have returned *)
+Theorem one_by_one_block : forall (kre : K -> K) (h : K) (solver : list K * mat K),
+  hpart_compute K NO kre [[h]] solver = ([kre h], [[1]]).
+Proof. reflexivity. Qed.
+
+(** larger blocks: the solver's answer is passed through unchanged (it is certified per run, not proved) *)
+Theorem larger_block_is_solver_output : forall (kre : K -> K) (H : mat K) (solver : list K * mat K),
+  length H <> 1%nat -> hpart_compute K NO kre H solver = solver.
+Proof.
+  intros kre H solver Hn. unfold hpart_compute. apply Nat.eqb_neq in Hn. rewrite Hn. reflexivity.
+Qed.
+
+End Adjoint.
+
+(** * The hypotheses are satisfiable: the integers, with the zero test |x| < 1 *)
+Local Open Scope Z_scope.
+Definition Zops : numops Z :=
+  {| n0 := 0; n1 := 1; nadd := Z.add; nsub := Z.sub; nmul := Z.mul; ndiv := Z.div; nopp := Z.opp;
+     nconj := fun x => x; nexp := fun x => x; nre_ltb := Z.ltb; nabs := Z.abs; nofZ := fun x => x; nI := 0 |}.
+
+Example Z_add0l : forall x, nadd Z Zops (n0 Z Zops) x = x.
+Proof. intro x. cbn. reflexivity. Qed.
+Example Z_addr0 : forall x, nadd Z Zops x (n0 Z Zops) = x.
+Proof. intro x. cbn. lia. Qed.
+Example Z_is_zero_spec : forall x, is_zero Z Zops 1 x = true <-> x = n0 Z Zops.
+Proof. intro x. unfold is_zero. cbn. rewrite Z.ltb_lt. lia. Qed.
+Example Z_ltb_asym : forall a b, nre_ltb Z Zops a b = true -> nre_ltb Z Zops b a = false.
+Proof. intros a b. cbn. rewrite Z.ltb_lt, Z.ltb_ge. lia. Qed.
+Example Z_le_trans : forall a b c, nre_ltb Z Zops b a = false -> nre_ltb Z Zops c b = false -> nre_ltb Z Zops c a = false.
+Proof. intros a b c. cbn. rewrite !Z.ltb_ge. lia. Qed.
+
+(** H = 3 (c^+_0 c_1 + c^+_1 c_0) + 5 n_0 on two modes; labels: 0 = |00>, 1 = mode 0, 2 = mode 1, 3 = both *)
+Definition ex_H : poly Z := [([cdag 0; cann 0], 5); ([cdag 0; cann 1], 3); ([cdag 1; cann 0], 3)].
+(** the partition by particle number *)
+Definition ex_S : classification := classification_of_blocks 2 [[0]; [1; 2]; [3]]%nat.
+
+Example ex_prepare_N1 : hpart_prepare false Z Zops 1 ex_S ex_H 1 = Done [[5; 3]; [3; 0]].
+Proof. vm_compute. reflexivity. Qed.
+
+Example ex_wf : wf_class ex_S.
+Proof.
+  split.
+  - intros b states Hb. destruct b as [|[|[|b]]]; cbn in Hb; try (destruct b; discriminate);
+      inversion Hb; subst; repeat constructor; cbn; intuition lia.
+  - intros b states s Hb Hs. destruct b as [|[|[|b]]]; cbn in Hb; try (destruct b; discriminate);
+      inversion Hb; subst; cbn in Hs; destruct Hs as [Hs|Hs]; try (destruct Hs as [Hs|Hs]); try contradiction;
+      subst; cbn; split; (lia || reflexivity).
+Qed.
+
+Example ex_in_range : poly_in_range Z 2 ex_H.
+Proof. repeat constructor. Qed.
+
+Example ex_respects : respects Z Zops 2 ex_H [1; 2]%nat.
+Proof.
+  intros r t Hr Ht Hn. cbn in Ht.
+  assert (Hr' : r = 1%nat \/ r = 2%nat) by (cbn in Hr; intuition lia).
+  assert (Ht' : t = 0%nat \/ t = 3%nat) by (cbn in Hn; lia).
+  destruct Hr' as [-> | ->]; destruct Ht' as [-> | ->]; vm_compute; reflexivity.
+Qed.
+
+(** the theorem applied to the example: the block is the restriction of the 4 x 4 matrix *)
+Example ex_prepare_by_theorem :
+  hpart_prepare false Z Zops 1 ex_S ex_H 1 = Done (restrict Z Zops (poly_matrix Z Zops 2 ex_H) [1; 2]%nat [1; 2]%nat).
+Proof.
+  apply (hpart_prepare_is_restriction false Z Zops 1 Z_add0l Z_addr0 Z_is_zero_spec ex_S ex_H 1 [1; 2]%nat
+           ex_wf ex_in_range eq_refl ex_respects).
+Qed.
+
+(** What the code does on a partition the Hamiltonian does NOT respect (every state its own block):
+    the hopping term leads from state 1 to state 2, whose position in ITS block is 0, so the matrix
+    element 3 overwrites the diagonal entry 5 -- a wrong cell, silently. *)
+Theorem hpart_unsound_refuted :
+  exists (S : classification) (b : nat) (states : list nat),
+    wf_class S /\ nth_error (sc_states S) b = Some states /\
+    exists H, hpart_prepare false Z Zops 1 S ex_H b = Done H /\
+              H <> restrict Z Zops (poly_matrix Z Zops 2 ex_H) states states.
+Proof.
+  exists (classification_of_blocks 2 [[0]; [1]; [2]; [3]]%nat), 1%nat, [1%nat].
+  split.
+  { split.
+    - intros b states Hb. destruct b as [|[|[|[|b]]]]; cbn in Hb; try (destruct b; discriminate);
+        inversion Hb; subst; repeat constructor; cbn; intuition lia.
+    - intros b states s Hb Hs. destruct b as [|[|[|[|b]]]]; cbn in Hb; try (destruct b; discriminate);
+        inversion Hb; subst; cbn in Hs; destruct Hs as [Hs|Hs]; try contradiction;
+        subst; cbn; split; (lia || reflexivity). }
+  split; [reflexivity|].
+  exists [[3]]. split; [vm_compute; reflexivity|]. vm_compute. intro H. inversion H.
+Qed.
+
+(** ... and when the position in the other block is not smaller than the size of this block, the write is
+    outside the matrix *)
+Theorem hpart_unsound_oob :
+  hpart_prepare false Z Zops 1 (classification_of_blocks 2 [[1]; [0; 2]; [3]]%nat) ex_H 0 = OOB.
+Proof. vm_compute. reflexivity. Qed.
+
+Example ex_ground : computeGroundEnergy Z Zops [([4; 7], []); ([-2], []); ([0; 1; 9], [])] = Done (-2).
+Proof. reflexivity. Qed.
+Example ex_lookup : getEigenValue false Z ex_S [([10], []); ([20; 21], []); ([30], [])] 2 = Done 21.
+Proof. reflexivity. Qed.
+Example ex_concat : getEigenValues Z ex_S [([10], []); ([20; 21], []); ([30], [])] = Done [10; 20; 21; 30].
+Proof. reflexivity. Qed.
+Example ex_pruning_hyp : nre_ltb Z Zops (nabs Z Zops 8) (nmul Z Zops (nabs Z Zops 8) 1) = false.
+Proof. reflexivity. Qed.
